@@ -35,6 +35,13 @@ CHECKS = {
         design_ref="DESIGN.md section 3, C03",
         note="Trusted: the harness's reference evaluator (written from the arithmetic definitions) and its integer classification. Only nowrap=true. Chain states are arbitrary, not only reachable ones. Cost limit ample; signatures not validated.",
     ),
+    "C05": dict(
+        engine="schedsim",
+        technique="deterministic simulation: block validators (parse_spends, run_block_generator2), the mempool pre-validator (validate_clvm_and_signature, feeding its pairings back) and an evictor run as simulated threads on one shared BlsCache under a seeded scheduler at lock granularity; a wallet signs with the real helper, a channel injects one tampering per bundle; verdicts are compared with a ground truth by construction computed from an independent statement of the 8 message rules; per-run random domain constants",
+        text="Seeded search over (bundles x tamperings x cache capacity / warm-up x parties x schedules). Every path's verdict, under every explored interleaving and cache history, in a final sweep and without a cache, must equal the verdict fixed by which (key, prescribed message) multiset was signed; the helper's messages and the pre-validator's cache keys must equal the reference. Exploration level (3 k runs quick, 200 k thorough). Narrowed claim: the schedule search decides cache and path independence; the per-opcode message rule is checked by the oracle the histories need, i.e. by seeded inputs, not by the schedules.",
+        design_ref="DESIGN.md section 3, C05",
+        note="Trusted: blst, the scheduler/hook, the harness's rule table (written from the property's restatement of CHIP-11, sharing no code with conditions.rs or the helper). Only accept/reject is compared. Expected verdicts are computed from the delivered bundle, so harmless tampering is expected to pass.",
+    ),
     "C10": dict(
         engine="histsim",
         technique="deterministic simulation, reduced sequential form: seeded add/finalize histories with injected failing attempts (rejected by the pre-check, rejected after serialisation with declared costs landing on / around the remaining budget, failing mid-batch on truncated or bit-flipped bytes), two builder replicas (full history vs accepted-only) compared byte for byte, generator decoded and validated by the real run_block_generator2",
@@ -95,9 +102,7 @@ def main():
             "level_note": c["note"],
             "technique": c["technique"],
         })
-    pending = {
-        "C05": "claimed in DESIGN.md (schedsim); check not built yet in this commit",
-    }
+    pending = {}
     for pid in sorted(set(NOT_APPLICABLE) | set(pending)):
         if pid in CHECKS:
             continue
